@@ -129,7 +129,7 @@ def schema_edits(spec, parsers=False, rich=True):
         for chk in CHECKS_BY_KIND.get(dk, []):
             eds.append(["addcheck", tid, chk])
         if rich:
-            other = {"int64": ["float64", "str"], "float64": ["int64"], "str": ["int64", "object"]}.get(c["dtype"], [])
+            other = {"int64": ["float64", "str", "Int64"], "float64": ["int64"], "str": ["int64", "object"]}.get(c["dtype"], [])
             for d in other:
                 eds.append(["set", tid, "dtype", d])
             eds.append(["set", tid, "dtype", None])
@@ -237,10 +237,10 @@ def data_edits(table, rich=True):
     if rich:
         eds.append(["duplabel", names[0]])
     for c in table["cols"]:
-        for nd in {"int64": ["float64", "object", "Int64", "numstr"], "object": ["string"], "float64": []}.get(c["dtype"], []):
+        for nd in {"int64": ["float64", "object", "Int64", "numstr", "Int64na"], "object": ["string"], "float64": []}.get(c["dtype"], []):
             if nd in ("Int64", "string") and not rich:
                 continue
-            eds.append(["coldtype", c["name"], nd])
+            eds.append(["coldtype", c["name"], nd])   # "Int64na": nullable-extension integers holding one <NA>
     ix = table.get("index")
     if ix is None:
         eds.append(["index", {"kind": "single", "values": ["r%d" % i for i in range(n)], "dtype": "object", "name": None}])
@@ -350,6 +350,12 @@ def apply_data_edit(table, e):
         c = col(e[1])
         if c is None:
             return None
+        if e[2] == "Int64na":
+            if not c["values"] or any(not isinstance(v, int) or isinstance(v, bool) for v in c["values"]):
+                return None
+            c["values"][min(1, len(c["values"]) - 1)] = None
+            c["dtype"] = "Int64"
+            return t
         if e[2] in ("float64", "Int64") and any(not (v is None or (isinstance(v, (int, float)) and not isinstance(v, bool))) for v in c["values"]):
             return None
         if e[2] == "string" and any(not (v is None or isinstance(v, str)) for v in c["values"]):
